@@ -217,6 +217,24 @@ func runCase(c Case, st *ev.Stats) error {
 							}
 						}
 						if mine && !asked[fmt.Sprintf("%d/%s", bi, h.Name)] {
+							// same known root cause: the post-negotiation re-resolution activates a state
+							// through an Add relation although it never went through this negotiation
+							cand := model.NewSet(tx.Called)
+							for z := range after {
+								cand[z] = true
+							}
+							viaAdd := false
+							for z := range cand {
+								if z != s && model.AddClosure(sc, model.Set{z: true})[s] {
+									viaAdd = true
+								}
+							}
+							if viaAdd && kf.IsKnown("C07-veto-readded-by-add") {
+								if st != nil {
+									st.Known("C07-veto-readded-by-add", fmt.Sprintf("%s activated by the re-resolution without %s being asked", s, h.Name))
+								}
+								continue
+							}
 							return fmt.Errorf("auto tx #%d called %v from %v: %s became active but its bound negotiation handler %s (binding %d) was never asked; calls %v",
 								i, tx.Called, before.List(), s, h.Name, bi, verdicts(byTx[tx.Id]))
 						}
